@@ -1828,19 +1828,24 @@ pub fn fw_decode(idx: u64) -> Option<Gen> {
 // ================================================================== FM: match on number literals
 
 pub fn fm_count() -> u64 {
-    4 * 6 * 2
+    7 * 6 * 2
 }
 /// FM: `match` on number literals with a wildcard arm. The scrutinee walks over an integer ramp that starts above,
 /// inside or below the literals (and, in the second form, steps by one half), so that values below the smallest
 /// literal, between literals, on them and above the largest all occur. Literal sets: contiguous from 0, contiguous
 /// from 1, with a gap, a single literal; also a two-component tuple match.
 pub fn fm_decode(idx: u64) -> Option<Gen> {
-    let (set, start, half) = (idx % 4, (idx / 4) % 6, (idx / 24) % 2);
-    let lits: &[i64] = match set {
-        0 => &[0, 1, 2],
-        1 => &[1, 2, 3],
-        2 => &[0, 2, 5],
-        _ => &[3],
+    let (set, start, half) = (idx % 7, (idx / 7) % 6, (idx / 42) % 2);
+    // (the last three sets: the same literal in two arms; a literal with a fractional part, which both backends
+    // truncate - onto the key of another arm, and onto a key of its own)
+    let lits: &[&str] = match set {
+        0 => &["0", "1", "2"],
+        1 => &["1", "2", "3"],
+        2 => &["0", "2", "5"],
+        3 => &["3"],
+        4 => &["1", "2", "1"],
+        5 => &["0", "0.5", "2"],
+        _ => &["1", "2.5"],
     };
     let arms: String = lits.iter().enumerate().map(|(i, l)| format!("    {l} => {}.0,\n", (i + 1) * 100)).collect();
     let start_v = [6.0, 3.0, 1.0, 0.0, -2.0, -6.0][start as usize];
